@@ -10,6 +10,17 @@ BIGN == 1073741824
 CountOK(b, n) == IF IsSmall(CountF(b)) THEN n = Num(CountF(b)) ELSE n >= 65536
 ItersOK(spec, obs) == /\ Len(spec) = Len(obs)
                       /\ \A i \in DOMAIN spec : spec[i].id = obs[i].id /\ Agree(spec[i].r, obs[i].r)
+\* one cursor session on the module iterator (TokenIter.tla): the items are the present modules in id order,
+\* an unreadable slot being an error item; judged when the table is small and no item is left free
+It == INSTANCE TokenIter
+SessItems(b) == LET it == Iter(b, 256) IN
+    [i \in DOMAIN it |-> [id |-> IF it[i].r.k = "err" THEN -1 ELSE it[i].id, r |-> [k |-> it[i].r.k, v |-> it[i].r.v]]]
+SessOK(b, steps, sess) ==
+    IF ~(IsSmall(CountF(b)) /\ Num(CountF(b)) <= 256) THEN sess = <<>>
+    ELSE /\ sess # <<>>
+         /\ sess[1].k = "ok"
+         /\ \/ \E i \in DOMAIN Iter(b, 256) : Iter(b, 256)[i].r.k = "free"
+            \/ It!IterOK(SessItems(b), steps, sess[1].outs)
 Judge(e) ==
     /\ e.op = "bundle"
     /\ e.out.k \in {"ok", "err"}                              \* no panic
@@ -22,6 +33,7 @@ Judge(e) ==
                /\ Len(o.gets) = Len(e.args.ids)
                /\ \A i \in DOMAIN e.args.ids : Agree(GetModule(b, e.args.ids[i]), o.gets[i])
                /\ ItersOK(Iter(b, 256), o.iter)
+               /\ SessOK(b, e.args.steps, o.sess)
 Free(e) == FALSE
 Init == l = 1 /\ bad = <<>> /\ free = <<>>
 Next == /\ l <= Len(Rec)
